@@ -28,6 +28,7 @@ type facts struct {
 	ChanMakes         [][3]string        `json:"chanMakes"` // file, func, capacity expr ("" = unbuffered)
 	RecoverAsserts    [][2]string        `json:"recoverAsserts"`
 	TokenKinds        []string           `json:"tokenKinds"`
+	Extra             *extraFacts        `json:"extra,omitempty"` // detfacts.go (C12 / C07), additive
 }
 
 func must(err error) {
@@ -259,6 +260,7 @@ func main() {
 	sort.Slice(F.RecoverAsserts, func(i, j int) bool { return fmt.Sprint(F.RecoverAsserts[i]) < fmt.Sprint(F.RecoverAsserts[j]) })
 
 	F.LockFacts = lockFacts(fset, rootFiles, info)
+	F.Extra = collectExtra(fset, rootFiles, info, F.LockFacts)
 
 	if *factsOut != "" {
 		b, _ := json.MarshalIndent(F, "", " ")
@@ -352,6 +354,10 @@ func renderLean(F *facts) string {
 		}
 		fmt.Fprintf(&b, "  (%s, %s, %s, %s)%s\n", q(x[0]), q(x[1]), q(x[2]), q(x[3]), sep)
 	}
-	b.WriteString("]\n\nend Generated\n")
+	b.WriteString("]\n\n")
+	if F.Extra != nil {
+		b.WriteString(renderExtra(F.Extra))
+	}
+	b.WriteString("end Generated\n")
 	return b.String()
 }
